@@ -1047,7 +1047,7 @@ class Gen:
         return ok
 
 
-META = st.one_of(st.none(), st.none(), st.none(), st.dictionaries(st.sampled_from(["name", "ü", "k"]), st.one_of(st.integers(-2, 2), st.text(max_size=3), st.none(), st.lists(st.integers(0, 2), max_size=2), st.booleans(), st.sampled_from([0.0, 1.0, 2.5])), min_size=1, max_size=2))
+META = st.one_of(st.none(), st.none(), st.none(), st.dictionaries(st.sampled_from(["name", "ü", "k", " k", "k\t", ""]), st.one_of(st.integers(-2, 2), st.text(max_size=3), st.none(), st.lists(st.integers(0, 2), max_size=2), st.booleans(), st.sampled_from([0.0, 1.0, 2.5])), min_size=1, max_size=2))
 
 
 @st.composite
